@@ -332,6 +332,11 @@ func c09(c *Ctx) {
 	c08Rotate(c, "R-C09")
 	c04Template(c)
 	c09Filters(c)
+	// holding a valid chain is useless unless the node can present it: the client-certificate callback considers every stored chain
+	if CC := c.need("R-C07.7", "tls", "ClientConfigs"); CC != nil {
+		r.Rule("R-C07.7", "the client-certificate callback of every client configuration ranges over all stored chains and all CAs the server lists (C07's rule, evaluated here: it is what lets a node use whichever of its chains the server still trusts)")
+		c07ClientCert(c, CC)
+	}
 }
 
 func c08Rotate(c *Ctx, rp string) {
